@@ -22,6 +22,7 @@ from typing import Tuple, Optional, Any, TextIO, Sequence, List
 
 from dnaio import SequenceRecord
 
+from .adapters import LinkedMatch, RemoveBeforeMatch
 from .files import OutputFiles
 from .predicates import Predicate
 from .modifiers import ModificationInfo
@@ -233,8 +234,27 @@ class InfoFileWriter(SingleEndStep):
         if info.is_rc:
             current_read = current_read.reverse_complement()
         if info.matches:
+            # Match coordinates refer to the read as it was after the modifiers that
+            # run before adapter trimming (such as -u or -q), which may have removed bases.
+            # These bases are shown as long as they are still attached to the read.
+            searched_length = self._searched_length(info.matches[0])
+            offset = info.removed_prefix_length
+            if info.is_rc:
+                offset = len(current_read) - searched_length - offset
+            removed_prefix = current_read[:offset]
+            removed_suffix = current_read[offset + searched_length :]
+            current_read = current_read[offset : offset + searched_length]
             for match in info.matches:
-                for info_record in match.get_info_records(current_read):
+                for info_record, removes_prefix in self._info_records(
+                    match, current_read
+                ):
+                    self._extend_info_record(
+                        info_record, removed_prefix, removed_suffix
+                    )
+                    if removes_prefix:
+                        removed_prefix = removed_prefix[:0]
+                    else:
+                        removed_suffix = removed_suffix[:0]
                     # info_record[0] is the read name suffix
                     print(
                         read.name + info_record[0],
@@ -250,6 +270,44 @@ class InfoFileWriter(SingleEndStep):
             print(read.name, -1, seq, qualities, sep="\t", file=self._file)
 
         return read
+
+    @staticmethod
+    def _searched_length(match) -> int:
+        """Return the length of the sequence in which the (first) match was searched"""
+        if isinstance(match, LinkedMatch):
+            if match.front_match is not None:
+                match = match.front_match
+            else:
+                match = match.back_match
+        return len(match.sequence)
+
+    @staticmethod
+    def _info_records(match, read):
+        """
+        Yield (info_record, removes_prefix) tuples, where removes_prefix tells
+        whether this match removes the part of the read before or after it
+        """
+        records = match.get_info_records(read)
+        if isinstance(match, LinkedMatch):
+            sides = [
+                m is match.front_match
+                for m in (match.front_match, match.back_match)
+                if m is not None
+            ]
+        else:
+            sides = [isinstance(match, RemoveBeforeMatch)]
+        return zip(records, sides)
+
+    @staticmethod
+    def _extend_info_record(info_record, prefix, suffix) -> None:
+        """Add previously removed prefix and suffix to the left and right columns"""
+        info_record[2] += len(prefix)
+        info_record[3] += len(prefix)
+        info_record[4] = prefix.sequence + info_record[4]
+        info_record[6] = info_record[6] + suffix.sequence
+        if prefix.qualities is not None:
+            info_record[8] = prefix.qualities + info_record[8]
+            info_record[10] = info_record[10] + suffix.qualities
 
 
 class PairedSingleEndStep(PairedEndStep):
